@@ -384,4 +384,7 @@ PROPS["C01"]["explanation"] += (" x12_roundtrip: the same for a message planned 
     " (a switch planned inside the last two characters of an X12 run leaves a stale latch after set_ascii_until_end; shown by evaluating the models, DESIGN.md 0.6), so the data-level theorems are stated per plan shape.")
 PROPS["C01"]["explanation"] += " b256_roundtrip: the same for a message planned entirely in Base 256 (one- and two-codeword length, length 0 = to the end of the symbol when the data ends with the symbol, 255-state randomisation by position)."
 PROPS["C01"]["explanation"] += " edifact_roundtrip: the same for a message planned entirely in EDIFACT (characters 32..94): complete quadruples, then try_ascii_end (<= 4 characters as <= 2 ASCII codewords without UNLATCH when <= 2 codewords are left), the UNLATCH value in the next free slot (the proof derives the three codewords the decoder needs from the encoder's space tests) or the exact end of the symbol; the handle_end branch that writes buffered characters without UNLATCH is shown unreachable."
-PROPS["C01"]["unproved"] = ["encode_conformant for C40 / Text and for mixed plans produced by the optimiser (proved per plan shape: ascii_roundtrip, x12_roundtrip, b256_roundtrip, edifact_roundtrip)"]
+PROPS["C01"]["explanation"] += " c40_roundtrip / text_roundtrip: the same for a message planned entirely in C40 or Text: every byte value (basic and shift sets, upper shift), triples flushed as they fill, and every end-of-data branch of c40::handle_end (fill value 0 without UNLATCH; dropped value + UNLATCH + last character in ASCII; single trailing ASCII codeword without UNLATCH; fill with Shift 2 (+ Upper Shift) and UNLATCH if there is room; two trailing digits as an ASCII pair)."
+PROPS["C01"]["unproved"] = ["encode_conformant for mixed plans produced by the optimiser (the data-level round trip is proved for each of the six single-mode plan shapes: ascii_, x12_, b256_, edifact_, c40_, text_roundtrip; it is false for arbitrary foreign plans, see DESIGN.md 0.6)"]
+PROPS["C01"]["level_text"] = ("Partial proof: the symbol-level half of the round trip is a theorem for all sizes and contents; the data-level half is a theorem for each of the six single-mode plans"
+    " (all messages, all symbol lists, every end-of-data form and all padding amounts); for mixed plans chosen by the optimiser it is exploration with a specification oracle.")
